@@ -116,6 +116,13 @@ func (v Verifier) Verify(ctx context.Context, signedMsg *cryptopb.SignedMessage,
 		)
 	}
 	for _, c := range chains {
+		// Neither the cache (keyed by ISD-AS and subject key ID only) nor the
+		// textual timestamp comparison of the database can be relied upon for
+		// the validity period: only use certificates that cover the bound
+		// validity.
+		if !v.BoundValidity.IsZero() && !chainValidity(c).Covers(v.BoundValidity) {
+			continue
+		}
 		signedMsg, err := signed.Verify(signedMsg, c[0].PublicKey, associatedData...)
 		if err == nil {
 			metrics.Verifier.Verify(l.WithResult(metrics.Success)).Inc()
@@ -128,6 +135,11 @@ func (v Verifier) Verify(ctx context.Context, signedMsg *cryptopb.SignedMessage,
 		"query.subject_key_id", fmt.Sprintf("%x", query.SubjectKeyID),
 		"query.validity", query.Validity.String(),
 	)
+}
+
+// chainValidity returns the validity period of the AS certificate of the chain.
+func chainValidity(chain []*x509.Certificate) cppki.Validity {
+	return cppki.Validity{NotBefore: chain[0].NotBefore, NotAfter: chain[0].NotAfter}
 }
 
 func (v *Verifier) notifyTRC(ctx context.Context, id cppki.TRCID) error {
